@@ -102,6 +102,7 @@ class RaftOracle:
         self.double_vote: dict = {}      # term -> detail
         self.leader_events = 0
         self.backoffs = 0
+        self.old_match = [dict() for _ in range(n)]   # per node: peer idx -> last match_index it took from a same-term success response
         self.led_terms = [set() for _ in range(n)]
         # commits / applies
         self.ledger: list = []           # i-1 -> (term, cmd, commit_term, by)
@@ -260,6 +261,8 @@ class RaftOracle:
         if t < ln.current_term:
             self.probes["success_response_of_older_term_reached_leader"] += 1
             return
+        if t == ln.current_term:
+            self.old_match[l][p] = md.get("match_index", 0)
         if t == ln.current_term and self.nodes[p].current_term == t:
             table = getattr(ln, "_match_index", None)
             if not isinstance(table, dict):
@@ -270,6 +273,23 @@ class RaftOracle:
                 self._fine("match-index-le-matching-prefix", "RaftAppendEntriesResponse", "leader-recorded-more-than-reported",
                            f"leader {ln.name} recorded match_index={m} for {self.nodes[p].name} from a response that "
                            f"reported {md.get('match_index')}; true matching prefix {true}")
+
+    def _match_table_at_election(self, i, term):
+        """Right after a node turns leader: whatever its match_index table says about a peer must not exceed the
+        prefix that peer really shares with it now (a correct node starts every leadership from 0)."""
+        nd = self.nodes[i]
+        table = getattr(nd, "_match_index", None)
+        trues = {p: self._matching_prefix(i, p) for p in range(self.n) if p != i}
+        if any(self.old_match[i].get(p, 0) > t for p, t in trues.items()):
+            self.probes["reelected_after_a_peer_lost_what_it_had_acknowledged"] += 1
+        self.old_match[i] = {}
+        if isinstance(table, dict):
+            for p, true in trues.items():
+                m = table.get(self.nodes[p].name, 0)
+                if m > true:
+                    self._fine("match-index-le-matching-prefix", "become_leader", "kept-from-earlier-leadership",
+                               f"{nd.name} became leader of term {term} with match_index[{self.nodes[p].name}]={m} left over from an "
+                               f"earlier leadership, but that peer's log now agrees with its own only up to index {true}")
 
     def _matching_prefix(self, a, b) -> int:
         la, lb = self.logs[a], self.logs[b]
@@ -369,6 +389,8 @@ class RaftOracle:
                     self._fine("leader-has-majority-votes", "RaftVoteResponse", "fewer-grants-than-quorum",
                                f"{self.nodes[i].name} became leader of term {term} with {got} term-{term} vote(s) granted to it "
                                f"(own vote included); quorum is {self.quorum}")
+            if prev_role != "L" or prev_term != term:
+                self._match_table_at_election(i, term)
             cur = self.leader_of.get(term)
             if cur is None:
                 self.leader_of[term] = i
